@@ -182,6 +182,7 @@ class SimProcess:
         self.soft_signals = 0
         self.last_delivered = None
         self.guard_waited = False
+        self.drain_code = EX_RECYCLE
         self.late_readies = 0
 
     # -- process API used by Pool ------------------------------------------
@@ -485,6 +486,9 @@ class Sim:
                 proc.exit(self.term_status)
                 return
             if not self.step_worker(proc):
+                if proc.state == DRAINING:
+                    CLOCK.now += 1.0      # it leaves after its 30 s guard at most
+                    continue
                 break
         if proc.alive:
             raise Violation('join-blocks', 'join() waits on worker in state %s '
@@ -514,9 +518,13 @@ class Sim:
                 and not proc.term_pending):
             return False
         task = self.fifo.pop(0)
-        if task is None:                      # sentinel: clean exit
-            proc.outbox.append((DEATH, (proc.pid, 0)))
-            proc.exit(0)
+        if task is None:
+            # sentinel: clean exit, but only after the worker has made sure its
+            # results were consumed (Worker._ensure_messages_consumed runs in
+            # workloop's finally block on this path too)
+            proc.state = DRAINING
+            proc.drain_code = 0
+            proc.drain_since = CLOCK.now
             return True
         type_, (job, i, fun, args, kwargs) = task
         assert type_ == TASK
@@ -555,8 +563,8 @@ class Sim:
 
     def w_drain_exit(self, proc):
         if proc.alive and proc.may_drain_exit():
-            proc.outbox.append((DEATH, (proc.pid, EX_RECYCLE)))
-            proc.exit(EX_RECYCLE)
+            proc.outbox.append((DEATH, (proc.pid, proc.drain_code)))
+            proc.exit(proc.drain_code)
             return True
         return False
 
@@ -642,6 +650,10 @@ class Sim:
             mj = self.by_jobid.get(job)
             if mj is not None and i in mj.parts:
                 mj.parts[i].ready_delivered = True
+                if i is not None:
+                    if i < getattr(mj, 'max_ready_i', -1):
+                        mj.out_of_order = True
+                    mj.max_ready_i = max(i, getattr(mj, 'max_ready_i', -1))
 
     def after_delivery(self, msg):
         pass
@@ -887,6 +899,10 @@ class Sim:
         # exits in the order _join_exited_workers will reap them
         reaped_statuses = [w.exitcode for w in reversed(pool._pool)
                            if w.exitcode is not None]
+        tick_now = CLOCK.now
+        orc = getattr(self, 'oracle', None)
+        predicted = orc.limiter_predict(reaped_statuses, tick_now) \
+            if orc is not None else (None, None)
         try:
             pool.maintain_pool()
         except RestartFreqExceeded:
@@ -898,14 +914,15 @@ class Sim:
         else:
             self.last_tick_raised = False
         self.tick_info = {
-            'now': CLOCK.now, 'reaped_statuses': reaped_statuses,
+            'now': tick_now, 'reaped_statuses': reaped_statuses,
+            'predicted': predicted,
             'raised': self.last_tick_raised,
             'created': self.procs_started - self.tick_started}
         after_pids = set(p.pid for p in pool._pool)
         for pid in before_pids - after_pids:
-            self.reaps[pid] = CLOCK.now
+            self.reaps[pid] = tick_now
             self.by_pid[pid].reaped = True
-        self.last_tick = CLOCK.now
+        self.last_tick = tick_now
         self.ticks = getattr(self, 'ticks', 0) + 1
 
     def op_scan(self, obey=True, status=-15):
@@ -960,7 +977,8 @@ class Sim:
         if any(m[0] == ACK for p in self.procs for m in p.outbox) or \
                 pool._putlock._value < n or self.model_target - n < 1:
             return 'excluded'
-        inactive = [w for w in pool._pool if not pool._worker_active(w)]
+        inactive = [w for w in pool._pool if not pool._worker_active(w)
+                    and not getattr(w, '_controlled_termination', False)]
         if len(inactive) < n:
             return 'excluded'
         pool.shrink(n)
@@ -975,6 +993,7 @@ class Sim:
                 any(not p.alive for p in self.pool._pool) or
                 any(p.term_pending for p in self.pool._pool)):
             return self.exclude('close-with-exits-pending')
+        self.unfinished_at_close = self.unresolved_count()
         self.pool.close()
         self.closed = True
         self.labels.add('close')
@@ -1131,13 +1150,28 @@ class Sim:
             self.w_finish(proc)
         self.deliver(proc)
 
+    def op_run(self, k):
+        """composite: worker k takes a task and its ACK is delivered (the job
+        is now running with a known accept time)"""
+        cands = [p for p in self.alive_workers()
+                 if p.state == IDLE and not p.term_pending]
+        proc = self._pick(cands, k)
+        if proc is None or not self.fifo or self.fifo[0] is None:
+            return 'noop'
+        self.w_take(proc)
+        while proc.outbox:
+            self.deliver(proc)
+
     # -- dispatch --------------------------------------------------------------------
-    AFTER_CLOSE_OK = ('take', 'finish', 'deliver', 'work', 'feed', 'adv', 'dup',
+    AFTER_CLOSE_OK = ('run', 'take', 'finish', 'deliver', 'work', 'feed', 'adv', 'dup',
                       'wexit', 'join', 'quiesce', 'close', 'apply', 'map', 'imap',
                       'tick', 'discard')
 
     def allowed(self, zone):
-        return zone in self.config.get('allow', ())
+        allow = self.config.get('allow')
+        if allow is None:      # triage tools only
+            allow = _real_os.environ.get('SIM_ALLOW', '').split(',')
+        return zone in allow
 
     def exclude(self, zone):
         self.excluded[zone] = self.excluded.get(zone, 0) + 1
